@@ -1,7 +1,120 @@
-import VermouthModel.Proto
-open Proto
+import VermouthModel.C14
+open Proto Iso C14
 
-/-- placeholder driver for C14: replaced when the model is written -/
-def handle (_ : Unit) (_ : List Tok) : Unit × String := ((), "bad-op")
+def boolOf (t : Tok) : Option Bool := do
+  let i ← t.int?
+  pure (i != 0)
+
+def kvOf (t : Tok) : Option (String × Option String) := do
+  match ← t.list? with
+  | [k, v] => pure (← k.str?, ← v.optStr?)
+  | _ => none
+
+def attrsOf (t : Tok) : Option Attrs := do (← t.list?).mapM kvOf
+
+def pairOf (t : Tok) : Option (Int × Int) := do
+  match ← t.list? with
+  | [u, v] => pure (← u.int?, ← v.int?)
+  | _ => none
+
+def pairsOf (t : Tok) : Option (List (Int × Int)) := do (← t.list?).mapM pairOf
+
+def atomOf (t : Tok) : Option Atom := do
+  match ← t.list? with
+  | [k, r, p, h, ms, att] =>
+    pure { key := ← k.int?, resid := ← r.int?, ptm := ← boolOf p, hasModKey := ← boolOf h,
+           mods := ← nats? ms, attrs := ← attrsOf att }
+  | _ => none
+
+def matomOf (t : Tok) : Option MAtom := do
+  match ← t.list? with
+  | [k, p, att, rep] =>
+    let r : Option Attrs ← (match rep with
+      | Tok.none => some none
+      | x => (attrsOf x).map some)
+    pure { key := ← k.int?, ptm := ← boolOf p, attrs := ← attrsOf att, replace := r }
+  | _ => none
+
+def modifOf (t : Tok) : Option Modif := do
+  match ← t.list? with
+  | [n, ats, es] => pure { name := ← n.str?, atoms := ← (← ats.list?).mapM matomOf, edges := ← pairsOf es }
+  | _ => none
+
+def molOf (ats es : Tok) : Option Mol := do
+  pure { atoms := ← (← ats.list?).mapM atomOf, edges := ← pairsOf es }
+
+def givenOf (t : Tok) : Option (List (List (List Placement))) := do
+  (← t.list?).mapM fun it => do (← it.list?).mapM fun op => do (← op.list?).mapM pairsOf
+
+def fragOf (t : Tok) : Option Frag := do
+  match ← t.list? with
+  | [i, ps] => pure (← i.nat?, ← (← ps.list?).mapM pairsOf)
+  | _ => none
+
+def encInts (l : List Int) : String := encList (l.map encInt)
+def encNats (l : List Nat) : String := encList (l.map encNat)
+
+def leInts : List Int → List Int → Bool := lexLe
+
+def encGroups (gs : List (List Int × List Int)) : String :=
+  let canon := gs.map fun g => (sortInts g.1, sortInts g.2)
+  let sorted := canon.mergeSort fun a b => leInts a.1 b.1
+  encList (sorted.map fun g => encList [encInts g.1, encInts g.2])
+
+def encCoverEntry (c : Nat × Placement) : String :=
+  encList [encNat c.1, encList (c.2.map fun q => encList [encInt q.1, encInt q.2])]
+
+def encCover (c : Cover) : String := encList (c.map encCoverEntry)
+
+def encRes : Res → String
+  | .ok c => "ok " ++ encCover c
+  | .keyError => "keyerror"
+  | .outOfFuel => "out-of-fuel"
+
+def leStr (a b : String) : Bool := a ≤ b
+
+def encAttrs (a : Attrs) : String :=
+  let s := a.mergeSort fun x y => leStr x.1 y.1
+  encList (s.map fun kv => encList [encStr kv.1, encOptStr kv.2])
+
+def sortNats (l : List Nat) : List Nat := l.mergeSort fun a b => decide (a ≤ b)
+
+def encAtom (sortMods : Bool) (a : Atom) : String :=
+  encList [encInt a.key, encBool a.ptm, encNats (if sortMods then sortNats a.mods else a.mods), encAttrs a.attrs]
+
+def encLog (l : IterLog) : String :=
+  encList [encInts l.key, encNats l.allowedMods, encBool l.candsOk,
+    match l.result with
+    | none => "-"
+    | some (u, c) => encList [encList ((u.map encCoverEntry).mergeSort leStr), encCover c]]
+
+def encOutcome (sortMods : Bool) : Outcome → String
+  | .outOfFuel => "out-of-fuel"
+  | .done s =>
+    let atoms := s.mol.atoms.mergeSort fun a b => decide (a.key ≤ b.key)
+    "ok " ++ encList (s.log.map encLog) ++ " " ++ encList (atoms.map (encAtom sortMods)) ++ " "
+      ++ encList (s.warnings.map fun w => encInts (sortInts w))
+
+def handle (_ : Unit) (toks : List Tok) : Unit × String :=
+  let r : Option String :=
+    match toks with
+    | [Tok.str "groups", ats, es] => do
+        let m ← molOf ats es
+        pure (encGroups (findPtmGroups m))
+    | [Tok.str "cover", np, tc, frs] => do
+        let tc ← ints? tc
+        pure (encRes (coverGraph (← ints? np) tc.length tc (← (← frs.list?).mapM fragOf)))
+    | [Tok.str "coverold", fuel, np, tc, frs] => do
+        pure (encRes (coverGraphOld (← ints? np) (← fuel.nat?) (← ints? tc) (← (← frs.list?).mapM fragOf)))
+    | [Tok.str "fixptm", ats, es, ms, gv, sm] => do
+        let m ← molOf ats es
+        let mods ← (← ms.list?).mapM modifOf
+        pure (encOutcome (← boolOf sm) (fixPtm m mods (← givenOf gv)))
+    | [Tok.str "fixptmref", ats, es, ms] => do
+        let m ← molOf ats es
+        let mods ← (← ms.list?).mapM modifOf
+        pure (encOutcome false (fixPtmRef m mods))
+    | _ => none
+  ((), r.getD "bad-op")
 
 def main : IO Unit := runDriver handle ()
